@@ -49,7 +49,7 @@ structure CInv (rem : List Cb) (e0 : EvId) (s : KState ℚ σ) : Prop where
   rem_gone : ∀ c, Gone rem s c → Cb.check c ∉ rem
   bld_own : ∀ e L c, (s.ev e).cbs = some L → Cb.build c ∈ L → e = c ∧ ops s c ≠ []
   bld_cnt : ∀ c L, (s.ev c).cbs = some L → ops s c ≠ [] → L.count (.build c) = 1
-  rem_bld_own : ∀ c, Cb.build c ∈ rem → c = e0
+  rem_bld_own : ∀ c, Cb.build c ∈ rem → c = e0 ∧ ops s c ≠ []
   rem_bld_cnt : ∀ c, rem.count (.build c) ≤ 1
   /-- the event whose callbacks are running exists and is processed -/
   e0_done : rem ≠ [] → e0 < s.events.size ∧ (s.ev e0).cbs = none
